@@ -38,6 +38,9 @@ type c04Case struct {
 	N     int      `json:"n,omitempty"`    // number of boolean values
 	// Enc = "foreign": a conforming stream that Go's encoders did not write
 	Foreign *foreignCase `json:"foreign,omitempty"`
+	// Enc = "geom": a conforming DELTA stream at a geometry / in a style Go does not write (geometry.go);
+	// the values are Ints (dbp32, dbp64) or Strs (dlba, dba, dba_flba with Width)
+	Geom *geomCase `json:"geom,omitempty"`
 	// Enc = "dict-life" / "dict-file": dictionary scenarios (dict.go)
 	Life *dictLifeCase `json:"life,omitempty"`
 	File *dictFileCase `json:"file,omitempty"`
@@ -156,6 +159,14 @@ func check(c *core.Ctx, cs *c04Case) bool {
 		return k.ok
 	}
 	switch cs.Enc {
+	case "geom":
+		if cs.Geom != nil {
+			k.cutRng = rand.New(rand.NewSource(int64(len(cs.Ints))*31 + int64(len(cs.Strs))*17 + int64(cs.Geom.BS)))
+			if p := safely(func() { k.checkGeom(cs.Geom) }); p != "" {
+				k.viol("panic", "harness panicked on a foreign DELTA stream: "+p)
+			}
+		}
+		return k.ok
 	case "dict-life":
 		if cs.Life != nil {
 			k.checkLifeCase(cs.Life)
@@ -439,6 +450,24 @@ func checkInner(k *checker, rng *rand.Rand) {
 				k.corr("plain_boolean.encode_bytes", core.Hexs(got), c.Ask("c04.plain_bool "+uList(bits)))
 				if sd := c.Ask(fmt.Sprintf("c04.plain_bool_dec %d %s", cs.N, core.Hexs(got))); sd != uList(bits) {
 					k.viol("spec-decode", "plain boolean: specification decoder gives "+core.Trunc(sd, 200))
+				}
+			}
+		}
+		// a conforming writer may leave anything in the bits of the last byte behind the last
+		// value (Go writes zeros): the values decoded must not depend on them
+		if cs.Enc == "plain_bool" && cs.N%8 != 0 && len(got) == (cs.N+7)/8 && k.ok {
+			g2 := append([]byte(nil), got...)
+			g2[len(g2)-1] |= ^byte(0) << (uint(cs.N) % 8)
+			d2, err2 := e.DecodeBoolean(dstBytes(rng), g2)
+			ok := err2 == nil && 8*len(d2) >= cs.N
+			for i := 0; ok && i < cs.N; i++ {
+				ok = uint64(d2[i/8]>>(uint(i)%8))&1 == bits[i]
+			}
+			if !ok {
+				k.viol("foreign-stream", fmt.Sprintf("plain boolean, %d values, conforming page %s with ones behind the last value: Go returns %x (%v)", cs.N, core.Hexs(g2), d2, err2))
+			} else if c.HasOracle() {
+				if sd := c.Ask(fmt.Sprintf("c04.plain_bool_dec %d %s", cs.N, core.Hexs(g2))); sd != uList(bits) {
+					k.corr("foreign.generator.plain_bool", uList(bits), sd)
 				}
 			}
 		}
@@ -795,7 +824,7 @@ func genStrs(rng *rand.Rand, n, kind, fixed int) []string {
 }
 
 func run(c *core.Ctx) {
-	// development aid: C04_ONLY=dict runs only the dictionary scenarios, C04_ONLY=enc skips them
+	// development aid: C04_ONLY=dict runs only the dictionary scenarios, C04_ONLY=enc skips them, C04_ONLY=geom runs geometry.go only
 	if os.Getenv("C04_ONLY") != "enc" {
 		dictBulk(c)
 		dictLife(c)
@@ -804,7 +833,11 @@ func run(c *core.Ctx) {
 	if os.Getenv("C04_ONLY") == "dict" {
 		return
 	}
-	c.Res.Rule = "per (encoding, type): sequences from length buckets {0,1,2,3,7,8,9,15..17,31..33,63..65,127..130,255..258,1000,1025} x value patterns (constant, ramp, extremes, alternating, random full range, small runs; levels: constant, long runs, width-filling, group patterns; byte strings: shared prefixes, empty/long, identical, small alphabet), all RLE bit widths 0..8 (levels) and 0..32 (int32), an exhaustive sweep of all sequences of length <= 4 over {min,-1,0,1,max} for the delta encodings; destination buffers nil / dirty / oversized / reused. Checked per case: Go bytes == model bytes, Go decode(Go bytes) == input, specification decoder(Go bytes) == input. Non-trivial = at least 2 values; distinct by the JSON of the case. Dictionaries (dict.go): per dictionary kind, every short history of {Reset, Insert} calls on empty and pre-populated dictionaries and random long ones (Index/Lookup/Bounds/Page of the returned indexes against the inserted values; non-trivial = two inserts around a reset, or an insert into a pre-populated dictionary), and files/buffers of 2..4 row groups written through WriteRows and typed rows with and without fallback to PLAIN (non-trivial = at least 2 row groups actually written, and the fallback actually taken when a size limit is set)."
+	if os.Getenv("C04_ONLY") == "geom" { // development aid: only the foreign DELTA streams
+		runGeometry(c)
+		return
+	}
+	c.Res.Rule = "per (encoding, type): sequences from length buckets {0,1,2,3,7,8,9,15..17,31..33,63..65,127..130,255..258,1000,1025} x value patterns (constant, ramp, extremes, alternating, random full range, small runs; levels: constant, long runs, width-filling, group patterns; byte strings: shared prefixes, empty/long, identical, small alphabet), all RLE bit widths 0..8 (levels) and 0..32 (int32), an exhaustive sweep of all sequences of length <= 4 over {min,-1,0,1,max} for the delta encodings; destination buffers nil / dirty / oversized / reused. Checked per case: Go bytes == model bytes, Go decode(Go bytes) == input, specification decoder(Go bytes) == input. Non-trivial = at least 2 values; distinct by the JSON of the case. Conforming streams Go's encoders do not write: RLE / bit-packed streams built run by run (godec.go: run-length runs of any length, bit-packed runs of any number of groups; levels, int32, dictionary indexes, booleans; non-trivial = at least 2 runs) and DELTA pages (geometry.go: DELTA_BINARY_PACKED int32/int64, DELTA_LENGTH_BYTE_ARRAY, DELTA_BYTE_ARRAY produced by the model's encoder at every legal geometry -- block sizes 128..512 (thorough 768) x every mini-block count giving mini-blocks of a multiple of 32 values, 4096/1, thorough 65536/512 and 65536/2048 -- with value counts around the mini-block and block boundaries and the value patterns above plus walks whose bit width changes every 16 values; blocks in styles Go does not write where the specification decoder confirms the stream; non-trivial = more values than the first mini-block holds): Go's decoder must return exactly the values, the model of Go's decoder the same outcome. Dictionaries (dict.go): per dictionary kind, every short history of {Reset, Insert} calls on empty and pre-populated dictionaries and random long ones (Index/Lookup/Bounds/Page of the returned indexes against the inserted values; non-trivial = two inserts around a reset, or an insert into a pre-populated dictionary), and files/buffers of 2..4 row groups written through WriteRows and typed rows with and without fallback to PLAIN (non-trivial = at least 2 row groups actually written, and the fallback actually taken when a size limit is set)."
 	rng := c.Rng
 	fuzzEvery = uint32(c.N(10, 1))
 	tieEvery = uint32(c.N(2, 1))
@@ -961,6 +994,7 @@ func run(c *core.Ctx) {
 
 	// conforming streams Go's encoders do not write
 	runForeign(c)
+	runGeometry(c)
 
 	// vm_compute cross-check sample
 	c.Vm("From Coq Require Import List NArith ZArith Bool.\nFrom PQ Require Import Base.Bytes Enc.DeltaBP Enc.Rle.\nImport ListNotations.\nOpen Scope Z_scope.\nOpen Scope bool_scope.")
